@@ -79,10 +79,15 @@ def gen_to_nlgen(m):
                             "expr": expr_to_nlgen(o["e"]) if o["has"] else None})
     for d in m.get("dvars", []):
         out["dvars"].append({"lin": [list(t) for t in d["lin"]], "expr": expr_to_nlgen(d["e"]) if d["has"] else None})
-    if m.get("compl"):
-        out["compl"] = m["compl"]
-    if m.get("suffixes"):
-        out["suffixes"] = m["suffixes"]
+    if m.get("compl"):          # [[con, var], ...]; both bounds of the generated variables are finite -> flags 3
+        out["compl"] = {int(c): [int(v), 3] for c, v in m["compl"]}
+    sf = list(m.get("suffixes") or [])
+    for gi, g in enumerate(m.get("sos") or []):   # SOS sets by suffixes: sosno > 0 SOS1, < 0 SOS2; ref = reference values
+        no = (gi + 1) * (1 if g["kind"] == 1 else -1)
+        sf.append({"kind": 0, "name": "sosno", "vals": {int(v): no for v, _ in g["items"]}})
+        sf.append({"kind": 0, "name": "ref", "real": True, "vals": {int(v): r for v, r in g["items"]}})
+    if sf:
+        out["suffixes"] = sf
     if m.get("names"):
         out["names"] = m["names"]
     return out
@@ -116,6 +121,9 @@ def permute_gen(m, perm, cons_order=None):
     r["lcons"] = [remap_expr(e, perm) for e in m.get("lcons", [])]
     r["objs"] = [dict(o, lin=rl(o["lin"]), e=remap_expr(o["e"], perm)) for o in m.get("objs", [])]
     r["dvars"] = [dict(d, lin=rl(d["lin"]), e=remap_expr(d["e"], perm)) for d in m.get("dvars", [])]
+    cnew = {old: new for new, old in enumerate(cons_order)} if cons_order is not None else None
+    r["compl"] = [[(cnew[c] if cnew else c), perm[v]] for c, v in (m.get("compl") or [])]
+    r["sos"] = [dict(g, items=[[perm[v], ref] for v, ref in g["items"]]) for g in (m.get("sos") or [])]
     return r
 
 
@@ -167,7 +175,7 @@ def nl_record(m, D):
         return (-INF if lower else INF) if isinstance(x, str) or x is None else x * D
     rec = {"vars": [{"lb": v["lb"] * D, "ub": v["ub"] * D, "int": v["int"]} for v in m["vars"]],
            "cons": [], "lcons": [scale_expr(e, D) for e in m.get("lcons", [])], "objs": [], "dvars": [], "sos": []}
-    compl = {int(k): v for k, v in (m.get("compl") or {}).items()}
+    compl = {int(c): [int(v)] for c, v in (m.get("compl") or [])}
     for i, c in enumerate(m.get("cons", [])):
         r = {"lb": b(c["lb"], True), "ub": b(c["ub"], False), "lin": [list(t) for t in c["lin"]],
              "has": c["has"], "e": scale_expr(c["e"], D), "compl": False}
@@ -179,8 +187,8 @@ def nl_record(m, D):
         rec["objs"].append({"max": o["max"], "lin": [list(t) for t in o["lin"]], "has": o["has"], "e": scale_expr(o["e"], D)})
     for d in m.get("dvars", []):
         rec["dvars"].append({"lin": [list(t) for t in d["lin"]], "has": d["has"], "e": scale_expr(d["e"], D)})
-    for g in m.get("sos", []):
-        rec["sos"].append(g)
+    for g in m.get("sos") or []:
+        rec["sos"].append({"kind": g["kind"], "items": [[int(v), int(ref)] for v, ref in g["items"]]})
     return rec
 
 
